@@ -67,6 +67,7 @@ class Executor:
         self.cache_owner = None  # "own" after an ok scan, "foreign" after set_version(other), None unknown
         self.pending_fault = None  # C10: description of the last cache fault not yet followed by a scan
         self.last_scan_report = None
+        self.baseline_version = None
         self.tainted = {}       # path key -> forged checksum planted by cache_identity (with markers)
         self.fresh_memo = {}
         self.fresh_memo_on = False   # sweeps restore the same tree over and over: one reference per tree state
@@ -129,7 +130,7 @@ class Executor:
     def result(self):
         return {
             "violations": self.viol,
-            "log_digest": hashlib.sha1("\n".join(self.log).encode()).hexdigest(),
+            "log_digest": hashlib.sha1("\n".join(self.log).encode("utf-8", "surrogatepass")).hexdigest(),
             "log": self.log,
             "cover": {
                 "proc_ops": self.cover["proc_ops"],
@@ -157,7 +158,7 @@ class Executor:
         if "stdout" in obs:
             # the verbose log line prefix is the only real-clock text the program prints
             out = _LOG_TS.sub("[TS]", self.world.norm(obs["stdout"]))
-            keep["stdout"] = hashlib.md5(out.encode()).hexdigest()
+            keep["stdout"] = hashlib.md5(out.encode("utf-8", "surrogatepass")).hexdigest()
         if obs.get("report_digest"):
             keep["report"] = obs["report_digest"]
         return json.dumps(keep, sort_keys=True, default=str)
@@ -192,6 +193,11 @@ class Executor:
         if k == "set_git":
             w.git = op["scenario"]
             return {}
+        if k == "save_baseline":
+            r = w.op_save_baseline(op.get("version"))
+            if "noop" not in r:
+                self.baseline_version = r["version"]
+            return r
         if k == "set_env":
             w.env = {k2: v for k2, v in op["env"].items()}
             return {}
@@ -463,7 +469,7 @@ class Executor:
     def do_report(self, idx, op):
         w = self.world
         if op["op"] == "report":
-            obs = w.report(op.get("fmt", "text"), op["nonce"])
+            obs = w.report(op.get("fmt", "text"), op["nonce"], diff=bool(op.get("diff")))
         else:
             obs = w.findings(op.get("fmt", "text"), op.get("full", False), op["nonce"])
         from .props import common
